@@ -348,6 +348,7 @@ package rapid
 //@   immutable g
 //@   ensures [C15] true
 //@   requires [C03] len(g.slice) > 0
+//@   ensures [C03] existsw(k, 0, len(g.slice), now(i), result == g.slice[k])
 //@   panics invalidData: true
 //@   modifies drawn, lastWord
 
@@ -492,8 +493,14 @@ package rapid
 //@ func (*T).shouldLog
 //@   ensures result == (t.rawLog != nil || t.tbLog)
 
+// Logging writes nothing of the T (C14: it may be called from any goroutine without the lock) - the loggers
+// themselves (log.Logger, testing.TB) are goroutine-safe by their own documentation.
 //@ func (*T).Logf
+//@   ensures [C14] true
+//@   modifies nothing
 //@ func (*T).Log
+//@   ensures [C14] true
+//@   modifies nothing
 
 //@ func (*T).fail
 //@   requires [C14] unlocked(t)
@@ -574,6 +581,7 @@ package rapid
 //@   ensures [C10,C11,C14] implies(old(t.ctx) != nil, result == old(t.ctx) && t.ctx == old(t.ctx) && t.cancelCtx == old(t.cancelCtx))
 //@   ensures [C10,C11,C14] result == t.ctx || cancelled[result]
 //@   ensures [C10,C11,C14] implies(t.ctx != nil, !cancelled[t.ctx])
+//@   ensures [C10] implies(!cleaning(t), result == t.ctx)
 //@   modifies t.ctx, t.cancelCtx, lockmode[addr(t.mu)], cancelled
 
 // A cleanup callback runs while its T is in the cleanup phase: the context has already been cancelled and cleared,
@@ -597,6 +605,9 @@ package rapid
 //@   ensures [C10] sameOrNewArr(t) && drawn >= old(drawn)
 //@   panics any [C10,C11]: drawn >= old(drawn) && sameOrNewArr(t) && len(t.cleanups) == 0 && t.ctx == nil && t.cancelCtx == nil && !cleaning(t) && unlocked(t) && implies(old(t.ctx) != nil, cancelled[old(t.ctx)]) && implies(old(t.failed) != "", t.failed != "")
 //@   modifies t.failed, t.cleanups, elems(t.cleanups), t.ctx, t.cancelCtx, t.cleaning.v, t.draws, drawn, cancelled[t.ctx], lockmode[addr(t.mu)]
+//   LIFO (C10): the callback run is the one just popped from the top of the stack - the element right above the
+//   new top in the same backing array.
+//@   at cleanup#0 assert [C10] fnval == t.cleanups[len(t.cleanups)]
 //@   loop 0 invariant [C10,C14] unlocked(t) && t.ctx == nil && t.cancelCtx == nil && cleaning(t)
 //@   loop 0 invariant [C10] implies(old(t.ctx) != nil, cancelled[old(t.ctx)]) && implies(old(t.failed) != "", t.failed != "") && sameOrNewArr(t) && drawn >= old(drawn)
 
@@ -800,16 +811,28 @@ package rapid
 // saveFailFile (C16): every crash point leaves either no file under the final name or a complete one.
 // The only call that creates or changes a file under a name the discovery pattern can match is os.Rename;
 // at that call everything has been written (no write error was ignored) and the handle is closed.
+// joinedG: the text strings.Join produced in saveFailFile
+//@ ghost joinedG Str
+
 //@ func saveFailFile
 //@   noframe "only ghost file-system state and fresh strings"
 //@   ensures [C16] implies(result == nil, fsRenamed)
 //@   ensures [C16] implies(fsRenamed != old(fsRenamed), fsClosed)
 //@   ensures [C16] old(fsRenames) <= fsRenames && fsRenames <= old(fsRenames) + 1
-//@   modifies fsWritten, fsClosed, fsRenamed, fsTmpName, fsTmpDir, fsRenamedAtCreate, fsRenames
+//@   modifies fsWritten, fsClosed, fsRenamed, fsTmpName, fsTmpDir, fsRenamedAtCreate, fsRenames, joinedG
 //@   at os.CreateTemp#0 assert [C06,C16] arg1 == ".rapid-failfile-tmp-*" && arg0 == dir
 //@   at os.Rename#0 assert [C16] fsClosed && arg0 == fsTmpName && arg1 == filename && fsTmpDir == dir
+//   Content (C06): the data part is one header line made from version and seed, then one line per word of buf, in
+//   order, joined by newlines and written in one piece (the text of each line is fmt's business).
+//@   at fmt.Sprintf#0 assert [C06] strOf(arg1[0]) == version && bvOf(arg1[1]) == seed
+//@   at fmt.Sprintf#1 assert [C06] bvOf(arg1[0]) == u
+//@   at fmt.Sprintf#1 assert [C06] u == buf[len(bs) - 1]
+//@   at strings.Join#0 assert [C06] arr(arg0) == arr(bs) && off(arg0) == off(bs) && len(arg0) == len(buf) + 1 && arg1 == "\n"
+//@   at strings.Join#0 set joinedG = result
+//@   at f.WriteString#1 assert [C06] arg0 == joinedG
 //@   loop 0 invariant [C16] !fsClosed && fsRenamed == old(fsRenamed) && fsRenamed == fsRenamedAtCreate && fsTmpDir == dir && -1 <= rangeindex && rangeindex < len(out)
 //@   loop 1 invariant [C16] !fsClosed && fsRenamed == old(fsRenamed) && fsRenamed == fsRenamedAtCreate && fsTmpDir == dir && -1 <= rangeindex && rangeindex < len(buf)
+//@   loop 1 invariant [C06] len(bs) == rangeindex + 2
 
 //@ func sameError
 //@   trusted "a real failure's traceback is never the literal '<no error>' text, so an error never equals 'no error'"
@@ -890,7 +913,7 @@ package rapid
 //@   ensures [C09] tbErrors == old(tbErrors)
 //@   panics goexit [C02,C06,C09,C16]: tbFailed && tbErrors == old(tbErrors) + 1 && fsRenames <= old(fsRenames) + 1
 //@   ensures [C06,C16] fsRenames <= old(fsRenames) + 1
-//@   modifies heap, drawn, runs, lastInit, searched, sawFailure, lockmode, cancelled, tbFailed, tbErrors, fsWritten, fsClosed, fsRenamed, fsTmpName, fsTmpDir, fsRenamedAtCreate, fsRenames, runesWritten, capturedOut, cleanupSkipped, ffFalsified, propFalsified, ioFailed, cmpAt, lessAt, untilG
+//@   modifies heap, drawn, runs, lastInit, searched, sawFailure, lockmode, cancelled, tbFailed, tbErrors, fsWritten, fsClosed, fsRenamed, fsTmpName, fsTmpDir, fsRenamedAtCreate, fsRenames, runesWritten, capturedOut, cleanupSkipped, ffFalsified, propFalsified, ioFailed, cmpAt, lessAt, untilG, joinedG
 //@   at captureTestOutput#0 set capturedOut = arr(result)
 //@   at saveFailFile#0 assert [C06,C16] fsRenames == old(fsRenames) && arr(arg2) == capturedOut
 //   The fail file is saved under the directory and name derived from the very test name that doCheck globs for.
@@ -1442,3 +1465,20 @@ package rapid
 //@   at flipBiasedCoin#0 witness [C18] int64(v) < 0 || (max <= 0 && min < 0)
 //@   at genUintRange#0 witness [C18] tuple(uint64(-int64(v)), false, false)
 //@   at genUintRange#1 witness [C18] tuple(v, false, false)
+
+// ---------------------------------------------------------------------------------------------
+// Fail-file naming (C06: the next run finds the file; C16: temporary names are never picked up). Strings are opaque to
+// the logic, so what is fixed here is the construction: both the name and the discovery pattern are built from the
+// sanitised test name - directory testdata/rapid/<safe>, file <safe>-<timestamp>-<pid>.fail, pattern <safe>-*.fail -
+// so that the pattern matches the names and cannot match a name starting with "." (the temp pattern).
+//@ func failFileName
+//@   at kindaSafeFilename#0 assert [C06,C16] arg0 == testName
+//@   at kindaSafeFilename#1 assert [C06,C16] arg0 == testName
+//@   at fmt.Sprintf#0 assert [C06,C16] arg0 == "%s-%s-%d.fail"
+//@   at filepath.Join#0 assert [C06,C16] arg0[0] == "testdata" && arg0[1] == "rapid" && len(arg0) == 3
+
+//@ func failFilePattern
+//@   at kindaSafeFilename#0 assert [C06,C16,C17] arg0 == testName
+//@   at kindaSafeFilename#1 assert [C06,C16,C17] arg0 == testName
+//@   at fmt.Sprintf#0 assert [C06,C16,C17] arg0 == "%s-*.fail"
+//@   at filepath.Join#0 assert [C06,C16,C17] arg0[0] == "testdata" && arg0[1] == "rapid" && len(arg0) == 3
